@@ -6,7 +6,7 @@
    (gen_cross = model_cross).  Coordinates are exact rationals. *)
 From Coq Require Import String.
 From Coq Require Import ZArith QArith List Bool.
-From Verif Require Import Model.C15 Proofs.C15 Proofs.C15_sweep Proofs.C15_persist Gen.PnpolyGen Bridge.C15_bridge.
+From Verif Require Import Model.C15 Proofs.C15 Proofs.C15_sweep Proofs.C15_persist Proofs.C15_decimal Gen.PnpolyGen Bridge.C15_bridge.
 Import ListNotations.
 Open Scope Q_scope.
 
@@ -117,6 +117,23 @@ Theorem C15_roundtrip_partial :
         = (LOk fs, (ids0 ++ map (f_id F) fs, c')).
 Proof. exact roundtrip_partial. Qed.
 Print Assumptions C15_roundtrip_partial.
+
+(* The same with the decimal formats of the executable model for identifiers
+   and point numbers ('{:08d}' / int(): dec8 / parse_int_c, proved to satisfy the
+   two integer hypotheses); only the coordinate format remains a premise. *)
+Theorem C15_roundtrip_decimal :
+  forall (F : Type) (fmtf : F -> str) (parsef : str -> option F),
+    (forall v, parsef (fmtf v) = Some v) ->
+    (forall v, token_ok (fmtf v) = true) ->
+    forall (fs : list (pfilter F)) (ids0 : list Z) (c0 : Z),
+      Forall (fun f => wf_filter f = true) fs ->
+      NoDup (map (f_id F) fs) ->
+      (forall f, In f fs -> ~ In (f_id F f) ids0) ->
+      exists c',
+        import_all F parsef parse_int_c (save_all F fmtf dec8 fs) (ids0, c0)
+        = (LOk fs, (ids0 ++ map (f_id F) fs, c')).
+Proof. exact roundtrip_decimal. Qed.
+Print Assumptions C15_roundtrip_decimal.
 
 (* The guard on names cannot be dropped (finding C15-name-blanks): a name with
    a leading blank is reloaded without it, a name with a line break makes
